@@ -1,14 +1,17 @@
-(** Model of internal/agent/relay_table.go and of the relay part of the frame
-    dispatcher in internal/agent/{agent,udp,icmp}.go (properties C16, C17),
-    following the code after fix commits 22f571e and 64b5c0c.
+(** PRE-FIX model (kept for the refutation lemmas only): relay_table.go and the
+    relay dispatcher as they were before fix commits 22f571e (UDP/ICMP cleanup
+    on disconnect) and 64b5c0c (indices keyed by (peer, id)).
 
-    A [table] is the pair of Go maps byUpstream / byDownstream, keyed by
-    (peer, stream id).  Maps are association lists with map semantics
-    ([mset]/[pset] replace, [mdel]/[pdel] remove every binding of the key) and
-    are observed through [sorted]/[psorted].  Peers and ids are [N]. *)
+    A [table] is the pair of Go maps byUpstream / byDownstream, keyed by the
+    BARE stream id as in the code.  Maps are association lists with map
+    semantics ([mset] replaces, [mdel] removes every binding of the key) and
+    are observed through [sorted].  Peers and ids are [N]. *)
 From Coq Require Import List NArith Bool.
 Import ListNotations.
 Local Open Scope N_scope.
+
+Module PreFix.
+
 
 Section Map.
   Context {V : Type}.
@@ -29,95 +32,63 @@ Section Map.
 End Map.
 Arguments amap : clear implicits.
 
-(** maps keyed by (peer, id) *)
-Definition key := (N * N)%type.
-Definition keqb (a b : key) : bool := (fst a =? fst b) && (snd a =? snd b).
-Definition kleb (a b : key) : bool := (fst a <? fst b) || ((fst a =? fst b) && (snd a <=? snd b)).
-
-Section PMap.
-  Context {V : Type}.
-  Definition pmap := list (key * V).
-  Fixpoint pget (k : key) (m : pmap) : option V :=
-    match m with
-    | [] => None
-    | (k', v) :: t => if keqb k' k then Some v else pget k t
-    end.
-  Definition pdel (k : key) (m : pmap) : pmap := filter (fun p => negb (keqb (fst p) k)) m.
-  Definition pset (k : key) (v : V) (m : pmap) : pmap := (k, v) :: pdel k m.
-  Fixpoint pins_sorted (p : key * V) (l : pmap) : pmap :=
-    match l with
-    | [] => [p]
-    | q :: t => if kleb (fst p) (fst q) then p :: l else q :: pins_sorted p t
-    end.
-  Definition psorted (m : pmap) : pmap := fold_right pins_sorted [] m.
-End PMap.
-Arguments pmap : clear implicits.
-
 Record entry := mkentry { up_peer : N; up_id : N; down_peer : N; down_id : N }.
 
 Definition entry_eqb (a b : entry) : bool :=
   (up_peer a =? up_peer b) && (up_id a =? up_id b) && (down_peer a =? down_peer b) && (down_id a =? down_id b).
 
-Definition up_key (e : entry) : key := (up_peer e, up_id e).
-Definition down_key (e : entry) : key := (down_peer e, down_id e).
-
-Record table := mktable { by_up : pmap entry; by_down : pmap entry }.
+Record table := mktable { by_up : amap entry; by_down : amap entry }.
 
 Definition empty_table : table := {| by_up := []; by_down := [] |}.
 
 (** relayTable.Insert *)
 Definition insert (t : table) (e : entry) : table :=
-  {| by_up := pset (up_key e) e (by_up t); by_down := pset (down_key e) e (by_down t) |}.
+  {| by_up := mset (up_id e) e (by_up t); by_down := mset (down_id e) e (by_down t) |}.
 
 (** relayTable.Delete: removes whatever sits under the entry's two keys *)
 Definition delete (t : table) (e : entry) : table :=
-  {| by_up := pdel (up_key e) (by_up t); by_down := pdel (down_key e) (by_down t) |}.
+  {| by_up := mdel (up_id e) (by_up t); by_down := mdel (down_id e) (by_down t) |}.
 
-(** relayTable.LookupBoth(streamID, peer) *)
-Definition lookup_both (t : table) (id peer : N) : option entry * option entry :=
-  (pget (peer, id) (by_up t), pget (peer, id) (by_down t)).
+Definition lookup_both (t : table) (id : N) : option entry * option entry :=
+  (mget id (by_up t), mget id (by_down t)).
 
-(** relayTable.LookupDownstreamFrom(streamID, peer) *)
-Definition lookup_down_from (t : table) (id peer : N) : option entry := pget (peer, id) (by_down t).
+Definition lookup_down (t : table) (id : N) : option entry := mget id (by_down t).
 
 Definition pop_down_from_peer (t : table) (id peer : N) : table * option entry :=
-  match pget (peer, id) (by_down t) with
-  | Some e => (delete t e, Some e)
+  match mget id (by_down t) with
+  | Some e => if down_peer e =? peer then (delete t e, Some e) else (t, None)
   | None => (t, None)
   end.
 
 (** result: entry and the fromUpstream flag *)
 Definition pop_matching (t : table) (id peer : N) : table * option (entry * bool) :=
-  match pget (peer, id) (by_up t) with
-  | Some u => (delete t u, Some (u, true))
+  match mget id (by_up t) with
+  | Some u =>
+      if up_peer u =? peer then (delete t u, Some (u, true))
+      else match mget id (by_down t) with
+           | Some d => if down_peer d =? peer then (delete t d, Some (d, false)) else (t, None)
+           | None => (t, None)
+           end
   | None =>
-      match pget (peer, id) (by_down t) with
-      | Some d => (delete t d, Some (d, false))
+      match mget id (by_down t) with
+      | Some d => if down_peer d =? peer then (delete t d, Some (d, false)) else (t, None)
       | None => (t, None)
       end
   end.
 
 Definition involves (peer : N) (e : entry) : bool := (up_peer e =? peer) || (down_peer e =? peer).
 
-(** relayTable.DeleteByPeer: ranges over byUpstream; for every entry found
-    there that involves the peer it deletes the current upstream key and the
-    entry's downstream key.  (Deleting the current key while ranging is well
-    defined in Go and the result does not depend on the order.) *)
+(** relayTable.DeleteByPeer: ranges over byUpstream ONLY; for every entry
+    found there that involves the peer it deletes the current upstream key
+    and the entry's downstream key.  (Deleting the current key while ranging
+    is well defined in Go and the result does not depend on the order.) *)
 Definition delete_by_peer (t : table) (peer : N) : table * N :=
   let hit := filter (fun p => involves peer (snd p)) (by_up t) in
   ({| by_up := filter (fun p => negb (involves peer (snd p))) (by_up t);
-      by_down := fold_left (fun m p => pdel (down_key (snd p)) m) hit (by_down t) |},
+      by_down := fold_left (fun m p => mdel (down_id (snd p)) m) hit (by_down t) |},
    N.of_nat (length hit)).
 
-(** source facts the model relies on (tied to the code by Generated/C16.v) *)
-Definition relay_keys_carry_peer : bool := true.     (* both indices keyed by (peer, id) *)
-Definition lookups_pass_source_peer : bool := true.  (* handlers look up (frame.StreamID, peerID) *)
-(** order in which handleStreamData tries the endpoints: 1 relay table, 2 exit
-    handler, 3 forward handler, 4 file transfer, 5 shell server, 6 shell
-    client, 7 stream manager.  The modelled transit has only 1 and 7. *)
-Definition stream_data_dispatch_order : list N := [1; 2; 3; 4; 5; 6; 7].
-
-Definition snapshot (t : table) : pmap entry * pmap entry := (psorted (by_up t), psorted (by_down t)).
+Definition snapshot (t : table) : amap entry * amap entry := (sorted (by_up t), sorted (by_down t)).
 
 (* ------------------------------------------------------------------------- *)
 (** * Table-level operation sequences (facade correspondence) *)
@@ -125,8 +96,8 @@ Definition snapshot (t : table) : pmap entry * pmap entry := (psorted (by_up t),
 Inductive top :=
 | TInsert (e : entry)
 | TDelete (e : entry)
-| TLookupBoth (id peer : N)
-| TLookupDownFrom (id peer : N)
+| TLookupBoth (id : N)
+| TLookupDown (id : N)
 | TPopDown (id peer : N)
 | TPopMatching (id peer : N)
 | TDeleteByPeer (peer : N).
@@ -138,8 +109,8 @@ Definition tstep (t : table) (o : top) : table * tres :=
   match o with
   | TInsert e => (insert t e, mktres None None false 0)
   | TDelete e => (delete t e, mktres None None false 0)
-  | TLookupBoth id p => let '(u, d) := lookup_both t id p in (t, mktres u d false 0)
-  | TLookupDownFrom id p => (t, mktres (lookup_down_from t id p) None false 0)
+  | TLookupBoth id => let '(u, d) := lookup_both t id in (t, mktres u d false 0)
+  | TLookupDown id => (t, mktres (lookup_down t id) None false 0)
   | TPopDown id p => let '(t', r) := pop_down_from_peer t id p in (t', mktres r None false 0)
   | TPopMatching id p =>
       let '(t', r) := pop_matching t id p in
@@ -205,18 +176,16 @@ Definition emit (s : astate) (to : N) (f : frame) : out := if send_ok s to then 
 
 Definition two64 : N := 18446744073709551616.
 
-(** "we are the exit": empty path, or (TCP only) the path is just ourselves *)
-Definition open_is_local (s : astate) (f : frame) : bool :=
-  match f_path f with
-  | [] => true
-  | [p] => match f_fam f with TCP => p =? a_me s | _ => false end
-  | _ => false
-  end.
-
 (** STREAM_OPEN / UDP_OPEN / ICMP_OPEN *)
 Definition on_open (s : astate) (from : N) (f : frame) : astate * out :=
   let fm := f_fam f in
-  if open_is_local s f then
+  let local :=
+    match f_path f with
+    | [] => true
+    | [p] => match fm with TCP => p =? a_me s | _ => false end
+    | _ => false
+    end in
+  if local then
     (* we are the exit: the TCP exit handler / UDP / ICMP handlers are not
        configured on the modelled transit; UDP and ICMP answer with an error *)
     match fm with
@@ -251,7 +220,7 @@ Definition on_frame (s : astate) (from : N) (f : frame) : astate * out :=
   match f_kind f with
   | KOpen => on_open s from f
   | KAck =>
-      match lookup_down_from t (f_id f) from with
+      match lookup_down t (f_id f) with
       | Some e => if from =? down_peer e
                   then (s, emit s (up_peer e) (mkframe fm KAck (up_id e) [] (f_tag f) false))
                   else (s, [])
@@ -264,7 +233,7 @@ Definition on_frame (s : astate) (from : N) (f : frame) : astate * out :=
       | None => (s, [])
       end
   | KData =>
-      let '(u, d) := lookup_both t (f_id f) from in
+      let '(u, d) := lookup_both t (f_id f) in
       match u with
       | Some e =>
           if from =? up_peer e then (s, emit s (down_peer e) (mkframe fm KData (down_id e) [] (f_tag f) (f_fin f)))
@@ -300,9 +269,9 @@ Inductive event :=
 | EDisconnect (peer : N)                (* peer manager drops the connection, then handlePeerDisconnect *)
 | ESetFail (peer : N) (b : bool).
 
-(** handlePeerDisconnect -> cleanupRelaysForPeer runs DeleteByPeer on the TCP,
-    UDP and ICMP relay tables *)
-Definition cleanup_all_tables : bool := true.
+(** [tcp_only_cleanup]: handlePeerDisconnect -> cleanupRelaysForPeer touches
+    the TCP relay table only (the code under verification) *)
+Definition cleanup_all_tables : bool := false.
 
 Definition astep (s : astate) (ev : event) : astate * out :=
   match ev with
@@ -335,84 +304,5 @@ Fixpoint arun (s : astate) (evs : list event) : astate * list out :=
 Definition ainit (me : N) (locals : list N) : astate :=
   mkastate me empty_table empty_table empty_table [] [] (map (fun id => (id, [])) locals).
 
-(* ------------------------------------------------------------------------- *)
-(** * Comparison with the implementation (cases.v) *)
 
-Definition opt_eqb {A} (f : A -> A -> bool) (a b : option A) : bool :=
-  match a, b with Some x, Some y => f x y | None, None => true | _, _ => false end.
-
-Fixpoint list_eqb {A} (f : A -> A -> bool) (a b : list A) : bool :=
-  match a, b with
-  | [], [] => true
-  | x :: a', y :: b' => f x y && list_eqb f a' b'
-  | _, _ => false
-  end.
-
-Definition idx_eqb (a b : key * entry) : bool := keqb (fst a) (fst b) && entry_eqb (snd a) (snd b).
-Definition snap_eqb (a b : pmap entry * pmap entry) : bool :=
-  list_eqb idx_eqb (fst a) (fst b) && list_eqb idx_eqb (snd a) (snd b).
-
-Definition tres_eqb (a b : tres) : bool :=
-  opt_eqb entry_eqb (r_e1 a) (r_e1 b) && opt_eqb entry_eqb (r_e2 a) (r_e2 b) &&
-  Bool.eqb (r_flag a) (r_flag b) && (r_n a =? r_n b).
-
-(** facade case: list of (operation, observed result, observed snapshot after) *)
-Definition tcase := list (top * tres * (pmap entry * pmap entry)).
-
-Fixpoint tcase_ok_from (t : table) (c : tcase) : bool :=
-  match c with
-  | [] => true
-  | (o, r, sn) :: rest =>
-      let '(t', r') := tstep t o in
-      tres_eqb r r' && snap_eqb sn (snapshot t') && tcase_ok_from t' rest
-  end.
-Definition tcase_ok (c : tcase) : bool := tcase_ok_from empty_table c.
-
-Definition fam_code (f : fam) : N := match f with TCP => 0 | UDP => 1 | ICMP => 2 end.
-Definition kind_code (k : kind) : N :=
-  match k with KOpen => 0 | KAck => 1 | KErr => 2 | KData => 3 | KClose => 4 | KReset => 5 end.
-
-Definition frame_eqb (a b : frame) : bool :=
-  (fam_code (f_fam a) =? fam_code (f_fam b)) && (kind_code (f_kind a) =? kind_code (f_kind b)) &&
-  (f_id a =? f_id b) && list_eqb N.eqb (f_path a) (f_path b) && (f_tag a =? f_tag b) && Bool.eqb (f_fin a) (f_fin b).
-
-Definition out_eqb (a b : out) : bool :=
-  list_eqb (fun x y => (fst x =? fst y) && frame_eqb (snd x) (snd y)) a b.
-
-(** agent case: our id, local stream ids, then per event: observed output
-    frames, observed snapshots of the three tables, observed local streams
-    (id, number of buffered data frames) *)
-Record aobs := mkaobs {
-  ao_out : out;
-  ao_tcp : pmap entry * pmap entry; ao_udp : pmap entry * pmap entry; ao_icmp : pmap entry * pmap entry;
-  ao_locals : list (N * N);
-}.
-
-Definition locals_obs (s : astate) : list (N * N) :=
-  map (fun p => (fst p, N.of_nat (length (snd p)))) (sorted (a_locals s)).
-
-Definition aobs_ok (s : astate) (o : out) (ob : aobs) : bool :=
-  out_eqb (ao_out ob) o && snap_eqb (ao_tcp ob) (snapshot (a_tcp s)) && snap_eqb (ao_udp ob) (snapshot (a_udp s)) &&
-  snap_eqb (ao_icmp ob) (snapshot (a_icmp s)) &&
-  list_eqb (fun x y => (fst x =? fst y) && (snd x =? snd y)) (ao_locals ob) (locals_obs s).
-
-Definition acase := (N * list N * list (event * aobs))%type.
-
-Fixpoint acase_ok_from (s : astate) (c : list (event * aobs)) : bool :=
-  match c with
-  | [] => true
-  | (ev, ob) :: rest => let '(s', o) := astep s ev in aobs_ok s' o ob && acase_ok_from s' rest
-  end.
-Definition acase_ok (c : acase) : bool :=
-  let '(me, locals, evs) := c in acase_ok_from (ainit me locals) evs.
-
-Inductive case := CTable (c : tcase) | CAgent (c : acase).
-
-Definition case_ok (c : case) : bool := match c with CTable t => tcase_ok t | CAgent a => acase_ok a end.
-
-Fixpoint mismatches_from (i : N) (cs : list case) : list N :=
-  match cs with
-  | [] => []
-  | c :: cs' => if case_ok c then mismatches_from (i + 1) cs' else i :: mismatches_from (i + 1) cs'
-  end.
-Definition mismatches (cs : list case) : list N := mismatches_from 0 cs.
+End PreFix.
